@@ -98,11 +98,11 @@ Proof. induction ops as [|[o rs] r IH]; simpl; intros s s' G H; [inversion H; su
   apply (IH s1 s'); auto. destruct (step_D_all s o rs s1 G S). split; [eapply step_inv; [apply G|exact S]|auto]. Qed.
 
 (* global counter = sum of the groups' counters, after EVERY op list *)
-Theorem global_counter_all : forall nt0 ng0 ops s, (0 < nt0)%nat -> (0 < ng0)%nat ->
-  run (init nt0 ng0) ops = Ok s ->
+Theorem global_counter_all : forall hold nt0 ng0 ops s, (0 < nt0)%nat -> (0 < ng0)%nat ->
+  run (init_h hold nt0 ng0) ops = Ok s ->
   h_cur (s_up s) = SQu (s_up s) /\ h_cur (s_dn s) = SQu (s_dn s).
-Proof. intros nt0 ng0 ops s Hn Hg R.
-  assert (F0 : FullSt (init nt0 ng0)).
+Proof. intros hold nt0 ng0 ops s Hn Hg R.
+  assert (F0 : FullSt (init_h hold nt0 ng0)).
   { split; [apply init_inv; auto|]. destruct (empty_half_good nt0 ng0 0 Hn Hg) as (_ & _ & _ & _ & A).
     destruct (empty_half_good nt0 ng0 3 Hn Hg) as (_ & _ & _ & _ & B). auto. }
   destruct (run_full_all ops _ _ F0 R) as (_ & A & B). unfold D in *. lia. Qed.
